@@ -210,7 +210,9 @@ Init ==
 
 RemoveAt(s, j) == SubSeq(s, 1, j - 1) \o SubSeq(s, j + 1, Len(s))
 \* which pooled item a Get may return: serial = the one put last (or none if empty); conc = any, or none
-PoolChoices(pool) == IF Mode = "serial" THEN (IF pool = <<>> THEN {0} ELSE {Len(pool)}) ELSE 0..Len(pool)
+\* (gz: the buffer pools behave as in serial -- their nondeterminism is explored by conc --, the gzip reader pool: any, or none)
+PoolChoices(pool) == IF Mode \in {"serial", "gz"} THEN (IF pool = <<>> THEN {0} ELSE {Len(pool)}) ELSE 0..Len(pool)
+PoolChoicesZ(pool) == 0..Len(pool)
 
 \* order of the steps after the read loop.
 \* code:    [EOF] flush (In of the tail) -> putSid -> putE -> putR -> status     [err] putSid -> putE -> putR -> status
@@ -241,7 +243,7 @@ Start(i) ==
    mutant gz_double_put: the failed-Reset path Puts the object in acquireGzipReader AND the deferred Put runs.   *)
 GetZ(i) ==
   /\ pc[i] = "getZ"
-  /\ \E j \in PoolChoices(poolZ) :
+  /\ \E j \in PoolChoicesZ(poolZ) :
        IF j = 0
          THEN IF cs[i].bad
                 THEN /\ res' = [res EXCEPT ![i] = "err"] /\ pc' = [pc EXCEPT ![i] = "status"]
